@@ -62,11 +62,6 @@ class Job:
         c = self.codec
         if c.kind == "vox" and any(len(v) % 2 for (_, _, _, v) in self.calls):
             out.add("KF-VOX-ODD")
-        if c.kind == "paf24" and 2048 % self.ch != 0:
-            if any(ty != "s32" and len(v) > 2048 for (ty, _, _, v) in self.calls):
-                out.add("KF-PAF24-CHUNK")
-            if any(op[0] == "r" and op[1] != "s32" and op[3] * (self.ch if op[2] == "f" else 1) > 2048 for op in self.rops):
-                out.add("KF-PAF24-CHUNK")
         return out
 
     def harness_script(self):
